@@ -185,7 +185,8 @@ def Store.set (st : Store) (f o : Nat) (v : List Nat) : Store := ⟨((f, o), v) 
 structure State where
   g : List Fact
   st : Store
-  clob : Bool     -- some container assignment found its field non-empty (trigger of F-C15-1)
+  clob : Bool     -- some container assignment found an earlier ASSERTED element in its field (trigger of F-C15-3)
+  inf : List Fact := []   -- `_inferred_items`: the elements put into container fields by inference, in that order
 
 /-- `PropertyDescriptor.update_value(source, target)`: containers `_update` (add only when absent),
 single-valued fields are overwritten when different -/
@@ -194,12 +195,19 @@ def updateValue (K : Nat → Kind) (st : Store) (r : Fact) : Store :=
   | .single => if st r.1 r.2.1 = [r.2.2] then st else st.set r.1 r.2.1 [r.2.2]
   | _ => if r.2.2 ∈ st r.1 r.2.1 then st else st.set r.1 r.2.1 (st r.1 r.2.1 ++ [r.2.2])
 
+/-- `MonitoredContainer._update` remembers what inference put into the container (only when it really added it) -/
+def markInf (K : Nat → Kind) (σ : State) (r : Fact) : List Fact :=
+  match K r.1 with
+  | .single => σ.inf
+  | _ => if r.2.2 ∈ σ.st r.1 r.2.1 || σ.inf.contains r then σ.inf else σ.inf ++ [r]
+
 /-- `add_to_graph` with the write-back of inferred relations; `inferred` is the relation's flag -/
 def addCore (R : Rules) (K : Nat → Kind) : Nat → State → Fact → Bool → State
   | 0, σ, _, _ => σ
   | n+1, σ, r, inferred =>
     if r ∈ σ.g then σ else
-    let σ1 : State := { σ with g := r :: σ.g, st := if inferred then updateValue K σ.st r else σ.st }
+    let σ1 : State := { σ with g := r :: σ.g, st := if inferred then updateValue K σ.st r else σ.st,
+                               inf := if inferred then markInf K σ r else σ.inf }
     let σ2 := (R.u r).foldl (fun h q => addCore R K n h q true) σ1
     if R.tr r.1 then
       let outs := σ2.g.filter (fun q => q.1 == r.1 && q.2.1 == r.2.2)
@@ -243,15 +251,26 @@ def addItem (R : Rules) (K : Nat → Kind) (n : Nat) (σ : State) (f s t : Nat) 
   let σ' := addCore R K n σ (f, s, t) false
   { σ' with st := σ'.st.set f s (storeAdd (K f) (σ'.st f s) t) }
 
+/-- the elements inference put into field `f` of `s` -/
+def inferredOf (σ : State) (f s : Nat) : List Nat :=
+  (σ.inf.filter fun r => r.1 == f && r.2.1 == s).map (·.2.2)
+
+/-- `for v in list(attr._inferred_items): attr._update(v)`: the inferred elements that are missing come back -/
+def reAdd (σ : State) (f s : Nat) : State :=
+  { σ with st := σ.st.set f s ((inferredOf σ f s).foldl (fun c t => if t ∈ c then c else c ++ [t]) (σ.st f s)) }
+
 def step (R : Rules) (K : Nat → Kind) (n : Nat) (σ : State) : Op → State
   | .set1 f s t =>
     -- `__set__`, non-container branch: `setattr` first, then `add_relation_to_the_graph`
     addCore R K n { σ with st := σ.st.set f s [t] } (f, s, t) false
   | .add f s t => addItem R K n σ f s t
   | .assign f s xs =>
-    -- `__set__`, container branch: `attr._clear()`, then `_add_item` for every element of `make_set(value)`
-    let σ0 : State := { σ with st := σ.st.set f s [], clob := σ.clob || !(σ.st f s).isEmpty }
-    (hashOrder xs).foldl (fun h t => addItem R K n h f s t) σ0
+    -- `__set__`, container branch: `attr._clear()`, `_add_item` for every assigned element, then the elements that
+    -- inference had put there are added again (their relations are still in the graph). What is lost are earlier
+    -- ASSERTED elements: their relations stay although they left the field (no retraction, F-C15-3).
+    let σ0 : State := { σ with st := σ.st.set f s [],
+                               clob := σ.clob || (σ.st f s).any (fun t => !σ.inf.contains (f, s, t)) }
+    reAdd ((hashOrder xs).foldl (fun h t => addItem R K n h f s t) σ0) f s
   | .churn => σ
   | .storeOnly f s t =>
     { σ with st := σ.st.set f s (match K f with | .single => [t] | k => storeAdd k (σ.st f s) t) }
@@ -261,7 +280,7 @@ def step (R : Rules) (K : Nat → Kind) (n : Nat) (σ : State) : Op → State
       if muted.contains t then { h with st := h.st.set f s (storeAdd (K f) (h.st f s) t) }
       else addItem R K n h f s t) σ0
 
-def State.init : State := { g := [], st := ⟨[]⟩, clob := false }
+def State.init : State := { g := [], st := ⟨[]⟩, clob := false, inf := [] }
 
 def runOps (R : Rules) (K : Nat → Kind) (n : Nat) (ops : List Op) : State :=
   ops.foldl (step R K n) State.init
